@@ -18,7 +18,7 @@ import copy
 
 import numpy as np
 
-from .symarr import NotSymbolic, Sym, SymEval, _opaque
+from .symarr import NotSymbolic, Sym, SymbolicBranch, SymEval, _opaque
 
 
 class Raised(Exception):
@@ -313,8 +313,10 @@ class _Expr(SymEval):
 
     @staticmethod
     def _truth(v):
+        if isinstance(v, Sym) and all(m == () for m in v.terms):
+            return bool(v.terms.get((), 0))
         if isinstance(v, (Sym,)) or (isinstance(v, np.ndarray) and v.size != 1):
-            raise NotSymbolic("truth value of a symbolic / array value")
+            raise SymbolicBranch("truth value of a symbolic / array value")
         return bool(v)
 
     def e_Call(self, n):
@@ -349,6 +351,10 @@ class _Expr(SymEval):
                 return np.clip(*args, **kw)
             if f.attr == "evolve" and False:
                 pass
+            if f.attr in ("rint", "round", "around") and (isinstance(args[0], Sym) or np.asarray(args[0]).dtype == object):
+                from .symarr import _round
+
+                return _round(args[0], *args[1:2])
             if f.attr in ("isclose", "allclose", "rint", "round", "floor", "array_equal", "array_equiv"):
                 if np.asarray(args[0]).dtype == object:
                     raise NotSymbolic(f"{f.attr} of symbolic values")
@@ -400,6 +406,8 @@ class _Expr(SymEval):
                             # symbols denote generic (non-zero, pairwise different) values: only an identically zero
                             # entry is falsy.  Special coincidences are the business of the constant patterns.
                             nz = [bool(Sym.const(x).terms) for x in base.ravel()]
+                            if any(m != () for x in base.ravel() for m in Sym.const(x).terms):
+                                self.owner.generic_branches.append(f"{f.attr}() of symbolic values at line {n.lineno}")
                             return any(nz) if f.attr == "any" else all(nz)
                         raise NotSymbolic(f"{f.attr} of symbolic values")
                     return getattr(base, f.attr)()
@@ -666,6 +674,7 @@ class AccessorEval:
         self.depth = 0
         self.ticks = 0
         self.limit = limit
+        self.generic_branches = []  # data-dependent tests decided under "symbols are generic (non-zero)"
 
     # ------------------------------------------------------------------ instance protocol
     def get(self, rec: Rec, name):
